@@ -5,7 +5,7 @@ ID=$1; PATCH=$2; CID=${3:-$ID}
 WT=/tmp/seed/wt_$ID
 T=/tmp/kv/seedtest_$ID/verif
 if [ ! -d $T ]; then mkdir -p /tmp/kv/seedtest_$ID; git clone -q /verif $T; cp -r /verif/lean/.lake $T/lean/.lake 2>/dev/null; fi
-(cd $T && git pull -q)
+(cd $T && git fetch -q && git reset -q --hard origin/main)
 sed -i "s#path = \"[^\"]*\"#path = \"$WT/konst\"#" $T/harness/Cargo.toml
 git -C $WT checkout -q -- . && git -C $WT apply $PATCH || { echo "patch failed"; exit 3; }
 (cd $T && ./check $CID 2>&1 | grep -E "VIOLATION|KNOWN|BROKEN|evaluations" | cut -c1-400)
